@@ -169,7 +169,7 @@ def run_unit(u):
                             trees = [p.parse(text)]
                         else:
                             f = p.parse(text)
-                            n = len(f)
+                            n = f.solutions
                             idxs = list(range(min(n, TREE_CAP)))
                             if n > TREE_CAP:
                                 idxs.append(n - 1)
